@@ -26,13 +26,13 @@ def sysprop(technique, text, ref, note=SYS_NOTE):
     return dict(technique=technique, text=text, note=note, ref=ref)
 
 CHECKS.update({
-    "C01": sysprop("Coq proof over all histories of the closed-loop model (every PATCH avoids every cached node's CIDRs; reserved block is fresh) + differential correspondence real controller/model on system histories + overlap monitor",
+    "C01": sysprop("Coq proof: (a) over all histories every PATCH avoids every cached node's CIDRs and every reserved block is fresh; (b) reservations (Held) are established by every write, avoided by every allocation and preserved by node, ClusterCIDR and foreign-release work items; (c) one theorem over whole histories of one incarnation without node deletion: no two nodes ever overlap (invariant FInv over the closed loop); node deletion + restarts in (c) are monitored, not proved; + differential correspondence real controller/model on system histories + overlap monitor",
                    "Theorems (Properties/C01.v) quantify over every op list of Sys.v: user actions, deliveries, stale fetches, write outcomes, crashes/restarts, any ClusterCIDR population. The model is tied to the real NewMultiCIDRRangeAllocator/syncNode/syncClusterCIDR/handlers by running both on the same histories and comparing PATCHes, caches and API state; a monitor evaluates the property on the implementation's traces.",
                    "§5 C01"),
     "C03": sysprop("Coq proof (new incarnation's state is a function of the API objects only; history theorems hold across Crash/Construct ops) + correspondence on histories with crashes and restarts + monitor",
                    "Theorems (Properties/C03.v): a crash keeps exactly the API objects; construction depends on the API objects only; the all-history theorems include restarts. Correspondence compares the rebuilt pools and later writes of every incarnation.",
                    "§5 C03"),
-    "C06": sysprop("Coq proof (finalizer removed only when unassociated; writes change only the own finalizer) + correspondence on ClusterCIDR UPDATE requests + monitor",
+    "C06": sysprop("Coq proof at call level (finalizer removed only when unassociated, never while a node is associated; writes change only the own finalizer; associations are recorded with every write and survive every work item other than the release of that node); world-level glue (releases only for gone/deleting nodes) monitored + correspondence on ClusterCIDR UPDATE requests + monitor (dependants by snapshot and by history of own writes)",
                    "Theorems (Properties/C06.v) about reconcile_delete / create_cluster_cidr for every state and object; correspondence compares every UPDATE (finalizers, deep-equality of everything else with what was read) and the pools; monitor checks dependants and allocations after a processed deletion.",
                    "§5 C06"),
     "C08": sysprop("Coq proof over all histories (PATCH only to a node the cache shows without pod CIDRs; re-sync issues no write) + correspondence + monitor",
@@ -59,25 +59,25 @@ CHECKS.update({
 })
 
 CHECKS.update({
-    "C02": sysprop("Coq proof (allocated CIDR is a well-formed free block of its pool; all CIDRs of a PATCH come from one reservation, IPv4 first; structural invariant preserved by every work item) + correspondence on PATCHes and pools + well-formedness/eligibility monitor",
+    "C02": sysprop("Coq proof over all histories (the structural invariant holds in every world reachable by well-formed operations; every PATCH of every history carries well-formed CIDRs; allocated CIDR is a free block of its pool; all CIDRs of a PATCH come from one reservation, IPv4 first) + correspondence on PATCHes and pools + well-formedness/eligibility monitor",
                    "Theorems (Properties/C02.v) for every state satisfying the structural invariant and every input; correspondence on system histories; the monitor re-derives from the ClusterCIDR specs that every PATCH is one aligned block per configured family of one eligible, non-terminating ClusterCIDR whose selector the cached node satisfies.",
                    "§5 C02"),
     "C04": sysprop("Coq proof, PARTIAL (reserve-then-release restores the pool; release frees exactly the overlapped blocks; failed attempts keep the invariant) + correspondence on full pool snapshots + justification monitor at every idle point",
                    "Theorems (Properties/C04.v) at pool and call level; the global statement over histories is checked by the monitor on the implementation's traces (every used key must overlap an existing node's CIDR, a service range, or a reservation kept after an unresolved ambiguous write) -- not proved. Known findings K-D21, K-TOMB.",
                    "§5 C04"),
-    "C05": sysprop("Coq proof, PARTIAL (a refusal is always reported as error + CIDRNotAvailable event; the pool's candidate search is complete for every cursor position) + correspondence + free-capacity monitor",
+    "C05": sysprop("Coq proof (a refusal is always reported; the allocateCIDR loop is complete: giving up on a pool means every block is used, overlapped through another ClusterCIDR or held by a cached node; prioritizedCIDRs refuses only when every considered entry has an exhausted family, with respect to the state the sync started from) + correspondence + free-capacity monitor",
                    "Theorems (Properties/C05.v); completeness of the allocateCIDR loop across pools blocked by other ClusterCIDRs is checked on every trace by the monitor, which recomputes free capacity from the snapshot and the node cache -- not proved.",
                    "§5 C05"),
     "C09": sysprop("Coq proof (occupying a service range marks every overlapping block; candidates never overlap marked blocks; construction establishes the invariant) + correspondence on histories with service ranges + overlap monitor",
                    "Theorems (Properties/C09.v) for all relative sizes/positions (the only notion is overlap); correspondence and monitor on start-up configurations with primary/secondary ranges of both families until exhaustion.",
                    "§5 C09"),
-    "C10": sysprop("Coq proof (handling a mapped object changes nothing; second handling is a no-op; a failed finalizer write maps nothing) + correspondence on pool snapshots with ClusterCIDR write faults + one-entry-per-name monitor",
+    "C10": sysprop("Coq proof (handling a mapped object changes nothing; second handling is a no-op at call level and in the closed loop; a failed finalizer write maps nothing) + correspondence on pool snapshots with ClusterCIDR write faults + monitor (one entry per name, entry unchanged by repeated handling, finalized objects keep their entry)",
                    "Theorems (Properties/C10.v) for every state, object and write outcome; correspondence and monitor on histories with failed/retried ClusterCIDR writes, stale caches, start-up listing followed by notifications.",
                    "§5 C10"),
     "C11": sysprop("Coq proof, PARTIAL (a failed work item is always requeued) + correspondence on queues/results + steady-state monitor after a fair drain",
                    "Theorems (Properties/C11.v): requeue. Convergence is checked, not proved: every history is followed by three rounds of fair, fault-free processing and the monitor checks that every servable node has CIDRs and every releasable ClusterCIDR is gone. Fairness/timing of the real rate limiter is represented only by the Tick op. Known finding K-AMB.",
                    "§5 C11"),
-    "C12": sysprop("Coq proof (ClusterCIDR items never panic for any content; ordering never panics under the invariant; invariant preserved for all well-formed inputs; unusable selector/range/family/host bits rejected with an error and no state change) + correspondence incl. a malformed-input stream + panic monitor",
+    "C12": sysprop("Coq proof over all histories of well-formed operations (no step panics: node items, ClusterCIDR items, notification handlers incl. tombstones and relists, construction; unusable selector/range/family/host bits rejected with an error and no state change) + correspondence incl. a malformed-input stream + panic monitor + per-step watchdog for stalls",
                    "Theorems (Properties/C12.v); 600 malformed histories per run (garbage / other-family / sloppy CIDR strings, host bits from -2^31 to 2^31-1, 14 bad selector shapes, node CIDRs of missing families, service ranges of missing families, tombstones) run on the real code under recover(); any panic is a violation.",
                    "§5 C12"),
     "C20": sysprop("translator: SSA taint analysis of informer-cache objects, facts regenerated every run and checked in Coq (cache_write_sites = []) + Coq frame theorem on the model + runtime deep-hash monitor on every step",
